@@ -37,14 +37,14 @@ def gen_func(rng, name):
     return 'def %s(%s):\n    """%s    """\n    return 1\n\n' % (name, sig, doc)
 
 
-def gen_package(rng, root, top, outer):
+def gen_package(rng, root, top, outer, force=False):
     """Writes a package tree; returns (module fqn to expose, list of (fqn, kind, relative file), symbols)."""
     base = os.path.join(root, *( [outer] if outer else []))
     os.makedirs(base, exist_ok=True)
     if outer:
         open(os.path.join(base, "__init__.py"), "w").write('"""outer"""\n')
     prefix = (outer + "." if outer else "") + top
-    levels = rng.randint(1, 3)
+    levels = 2 if force else rng.randint(1, 3)       # force: two levels, the top re-exports THROUGH the sub-package, classes with typing attributes
     cls, fns, mods = list(CLS), list(FNS), list(MODS)
     rng.shuffle(cls), rng.shuffle(fns), rng.shuffle(mods)
     modules = []
@@ -59,9 +59,10 @@ def gen_package(rng, root, top, outer):
             src = '"""%s module"""\n\nfrom typing import List, Optional\n\n' % m
             syms = []
             for _k in range(rng.randint(1, 2)):
-                if rng.random() < 0.6 and cls:
+                if (force or rng.random() < 0.6) and cls:
                     s = cls.pop()
-                    src += gen_class(rng, s)
+                    src += gen_class(rng, s) if not force else \
+                        'class %s(object):\n    """\n    %s class\n\n    :cvar maybe: the maybe\n    :cvar tags: the tags\n    """\n\n    maybe: Optional[str] = None\n    tags: List[str] = None\n\n' % (s, s)
                 elif fns:
                     s = fns.pop()
                     src += gen_func(rng, s)
@@ -80,9 +81,9 @@ def gen_package(rng, root, top, outer):
             sub = SUBS[depth]
             sub_exports = make(pkg_fqn + "." + sub, os.path.join(pkg_dir, sub), depth + 1)
             modules.append((pkg_fqn + "." + sub, "package", [s for _, ss in sub_exports for s in ss]))
-            if rng.random() < 0.7:
+            if force or rng.random() < 0.7:
                 # re-export either from the sub-package's modules or THROUGH the sub-package (its __init__ is then the source file)
-                if rng.random() < 0.5:
+                if not force and rng.random() < 0.5:
                     exports += sub_exports
                 else:
                     exports += [(pkg_fqn + "." + sub, [s_ for _m, ss in sub_exports for s_ in ss])]
@@ -90,7 +91,12 @@ def gen_package(rng, root, top, outer):
         names = []
         for mf, syms in exports:
             if syms:
-                init += "from %s import %s\n" % (mf, ", ".join(syms))
+                if not force and rng.random() < 0.2:
+                    # the optional-accelerator idiom: try a compiled twin that does not exist, fall back to the Python module
+                    init += "try:\n    from %s import %s\nexcept ImportError:\n    from %s import %s\n" % (
+                        mf.rsplit(".", 1)[0] + "._native", ", ".join(syms), mf, ", ".join(syms))
+                else:
+                    init += "from %s import %s\n" % (mf, ", ".join(syms))
                 names += syms
         init += "\n__all__ = %r\n" % names
         open(os.path.join(pkg_dir, "__init__.py"), "w").write(init)
@@ -157,7 +163,7 @@ def case_worker(case):
         for d in (src, other, cwd, work):
             os.makedirs(d)
         open(os.path.join(other, "keep.txt"), "w").write("keep\n")
-        module, modules = gen_package(rng, src, opts["top"], opts["outer"])
+        module, modules = gen_package(rng, src, opts["top"], opts["outer"], force=bool(opts.get("through_sub")))
         res["module"] = module
         res["modules"] = [m[0] for m in modules]
         if opts["out_exists"]:
@@ -209,6 +215,11 @@ def case_worker(case):
                                                                  "os.spawn", "socket", "urllib", "http", "pty"))]
         if procs:
             res["problems"].append({"clause": "a process was spawned / network touched", "events": procs[:3]})
+        # the source package is DATA for exmod: importing it would run its code (and, with bytecode caching on, write __pycache__ into it)
+        first = (opts["outer"] or opts["top"])
+        src_imports = sorted({e["module"] for e in r["events"] if e["ev"] == "import" and (e.get("module") == first or str(e.get("module", "")).startswith(first + "."))})
+        if src_imports:
+            res["problems"].append({"clause": "the analysed source package was imported (its code ran)", "modules": src_imports[:5], "cls": "C20/source-package-imported"})
         if opts["dry_run"]:
             if diff["created"] or diff["deleted"] or diff["modified"]:
                 res["problems"].append({"clause": "--dry-run created, modified or deleted a file or directory",
@@ -296,6 +307,11 @@ def gen_cases(ctx):
         for rec in (False, True):
             cases.append((11 + len(cases), {"emit": ["class"], "recursive": rec, "dry_run": False, "out_exists": False, "sqla_sub": False,
                                             "blacklist": "root", "whitelist": "root", "top": top, "outer": outer}))
+    # a two-level package whose top __init__ re-exports THROUGH its sub-package (that file is merged into twice), typing attributes
+    for e in ("class", "sqlalchemy", "argparse"):
+        for outer in ("outerp", None):
+            cases.append((17 + len(cases), {"emit": [e], "recursive": True, "dry_run": False, "out_exists": False, "sqla_sub": False,
+                                            "blacklist": None, "whitelist": None, "top": "pkga", "outer": outer, "through_sub": True}))
     # --blacklist given twice, the module to omit named by the FIRST occurrence
     for top, outer, bl in (("pkga", "outerp", "root"), ("pkga", None, "root"), ("pkga", "outerp", "subpkg")):
         cases.append((13 + len(cases), {"emit": ["class"], "recursive": True, "dry_run": False, "out_exists": False, "sqla_sub": False,
